@@ -179,6 +179,8 @@ func (r *run) dispatch(e Ev) {
 		r.drainLag(kernel.NewRng(e.S + 1))
 	case "patch":
 		r.restPatch(e)
+	case "parcoll":
+		r.parCollection(e)
 	case "parpatch":
 		r.parPatch(e)
 	case "patchsync":
